@@ -26,7 +26,7 @@ type c19Case struct {
 }
 
 var c19Alphabet = []string{"mgrTick", "enable2", "enable3", "disable2", "disableAll", "lag2:unknown", "lag2:low", "lag2:mid", "lag2:high",
-	"lag3:high", "lag3:low", "status2:enabled", "ghost", "h2Dies", "h2Starts", "fileTo2", "fileFrom1", "adv5", "h2SettingsFail", "h2SettingsOK"}
+	"lag3:high", "lag3:low", "status2:enabled", "ghost", "h2Dies", "h2Starts", "fileTo2", "fileFrom1", "adv5", "h2SettingsFail", "h2SettingsOK", "h2SecondSettingFails"}
 
 // events of the stale-snapshot searches: the hosts' health loops and the manager loop are separate
 // processes, so the records the Syncer classifies may have been READ before the manager's previous
@@ -263,6 +263,9 @@ func c19Run(r *vt.Run, c c19Case) (canon string) {
 			case ev == "h2SettingsFail":
 				// h2 refuses changes of the durability settings (error 1205) until h2SettingsOK
 				w.Servers["h2"].FailOps = map[string]uint16{"SET_FLUSH_LOG": 1205, "SET_SYNC_BINLOG": 1205}
+			case ev == "h2SecondSettingFails":
+				// only the second of the two statements fails: a start or a stop of the mode gets half way
+				w.Servers["h2"].FailOps = map[string]uint16{"SET_SYNC_BINLOG": 1205}
 			case ev == "h2SettingsOK":
 				w.Servers["h2"].FailOps = nil
 			case ev == "fileTo2" || ev == "fileFrom1":
@@ -370,6 +373,11 @@ func checkC19(r *vt.Run) {
 		vBFS(r, fmt.Sprintf("queue%d|", order), c19Alphabet, d-1, enabled, func(hist []string) string {
 			return runner(append(append([]string(nil), prefix2...), hist...))
 		})
+		// both replicas lagging and registered before the manager has looked: two hosts queued, none started
+		prefix3 := []string{"lag2:high", "lag3:high", "enable2", "enable3"}
+		vBFS(r, fmt.Sprintf("two-queued%d|", order), c19Alphabet, d-1, enabled, func(hist []string) string {
+			return runner(append(append([]string(nil), prefix3...), hist...))
+		})
 	}
 	// stale-snapshot searches (child order 0): from "h2 registered, records say lagging with the
 	// master's settings, a fresher read (lag converged, still the master's settings) waits to be
@@ -399,5 +407,5 @@ func checkC19(r *vt.Run) {
 		return "stale0|" + c19Run(r, c)
 	})
 	r.Bound("stale_snapshot_search_depth", ds)
-	r.Bound("initial_states", "converged; h2 lagging, registered and relaxed by the syncer; additionally h3 lagging and registered behind it; stale-record states")
+	r.Bound("initial_states", "converged; h2 lagging, registered and relaxed by the syncer; additionally h3 lagging and registered behind it; both lagging and registered with none started; stale-record states")
 }
